@@ -424,6 +424,7 @@ pub fn run(args: &[String]) {
         // library keeps state that survives the registry reset - the result of an export then
         // depends on what the process exported before (and exploring further would be unsound).
         {
+            let mut settled = false;
             let a = run_one(&uni, program, &[], &mut scratch);
             let b = run_one(&uni, program, &[], &mut scratch);
             match (a, b) {
@@ -438,11 +439,33 @@ pub fn run(args: &[String]) {
                             rep.count("programs_not_explored_because_not_reproducible", 1);
                             continue;
                         }
+                        // same tree both times, but reached along different paths: if that tree is not the
+                        // reference tree, the exports of this program into a fresh directory are already
+                        // wrong on the default schedule (state kept from earlier programs of this process)
+                        if b.tree != expected {
+                            rep.violation(
+                                json!({"check": "default-schedule-tree-vs-reference-after-earlier-programs"}),
+                                json!({"program": pdesc, "got": b.tree, "expected": expected, "first_run_points": a.decisions.len(), "second_run_points": b.decisions.len()}),
+                            );
+                            rep.count("programs_not_explored_because_not_reproducible", 1);
+                            continue;
+                        }
+                        // the reference tree both times, along different paths (e.g. something is computed on
+                        // first use only): if a third run repeats the second, the state has settled and the
+                        // exploration below is deterministic; any later divergence is still a hard error
+                        if let Ok(c) = run_one(&uni, program, &[], &mut scratch) {
+                            if c.tree == b.tree && c.decisions.len() == b.decisions.len() {
+                                rep.count("programs_whose_first_run_took_a_different_path", 1);
+                                settled = true;
+                            }
+                        }
+                        if !settled {
                         rep.machinery_errors.push(format!(
                             "program {pdesc}: the same schedule took {} scheduling points, then {} - hidden state",
                             a.decisions.len(), b.decisions.len()
                         ));
                         rep.finish();
+                        }
                     }
                 }
                 (Err(e), _) | (_, Err(e)) => {
